@@ -1,0 +1,49 @@
+//go:build verif
+
+package ebpf
+
+import "github.com/cilium/ebpf"
+
+// Verification hook for property C03 (fast path answers exactly as userspace
+// would).  Add-only; compiled only with -tags verif.
+
+// VerifC03Maps names the maps Load takes from the loaded collection.
+type VerifC03Maps struct {
+	SubscriberPools      *ebpf.Map // subscriber_pools
+	VLANSubscriberPools  *ebpf.Map // vlan_subscriber_pools
+	IPPools              *ebpf.Map // ip_pools
+	Stats                *ebpf.Map // stats_map
+	ServerConfig         *ebpf.Map // server_config
+	CircuitIDMap         *ebpf.Map // circuit_id_map
+	CircuitIDSubscribers *ebpf.Map // circuit_id_subscribers
+}
+
+// VerifC03SetMaps injects already-created kernel maps in place of the ones
+// Load takes from the collection (Load needs the compiled XDP object and
+// attaches to an interface), so that the Add/Remove/Get methods and the DHCP
+// server's cache updates run against real maps.  A nil field leaves the
+// corresponding map untouched.  The maps are not written by this call and
+// remain owned by the caller (Close only closes the collection and the link).
+func (l *Loader) VerifC03SetMaps(m VerifC03Maps) {
+	if m.SubscriberPools != nil {
+		l.subscriberPools = m.SubscriberPools
+	}
+	if m.VLANSubscriberPools != nil {
+		l.vlanSubscriberPools = m.VLANSubscriberPools
+	}
+	if m.IPPools != nil {
+		l.ipPools = m.IPPools
+	}
+	if m.Stats != nil {
+		l.statsMap = m.Stats
+	}
+	if m.ServerConfig != nil {
+		l.serverConfigMap = m.ServerConfig
+	}
+	if m.CircuitIDMap != nil {
+		l.circuitIDMap = m.CircuitIDMap
+	}
+	if m.CircuitIDSubscribers != nil {
+		l.circuitIDSubscribers = m.CircuitIDSubscribers
+	}
+}
